@@ -34,8 +34,8 @@ TEXT = {
     "C01": "invariant by induction (slot conservation + phase + registry invariant) => live workers and num_running+num_cancelled <= size in every reachable state, unbounded pool never full; is_full exactly at capacity whenever the loop's ready queue is empty and no task is in its cancel callback (two invariants over the ready queue: whoever has something to do is flagged, whoever is flagged has a handle => at idle no slot is on its way); is_full at idle also in histories with gather_and_close in which nobody calls unlock()",
     "C02": "slot conservation in every reachable state; accounting free+granted+running+cancelled=size, with the ghost hypothesis lost=false discharged for every history without gather_and_close (concurrent flushes included); at every idle point (ready queue empty) granted=0 and every unfinished task is suspended on a pending future of user code; at quiescence (idle, every asyncio Task done) the semaphore is back at the pool size with an empty queue and no spawner is left suspended (deadlock freedom); lost=false, the accounting (also at idle) and capacity back at quiescence also proved for every history WITH gather_and_close (any number, overlapping) in which nobody calls unlock() and pool_size is not assigned - the complement of known finding R9; deadlock freedom at quiescence (no spawner left waiting) also with gather_and_close in the history",
     "C03": "registry and callback life-cycle invariants for every history (one registry per id, callbacks at most once / in order / at the right moment); exactly-once and completeness with lost=false, discharged for histories without gather_and_close; a finished task stays finished after every continuation; exactly-once, completeness and 'no task is ever lost' also for every history with gather_and_close in which nobody calls unlock() (sealed pools); a task inside its end callback is counted as ended until it has finished (sealed histories)",
-    "C04": "request accounting invariant for every history: created+skipped+remaining = num, the tasks of a request are exactly the ones it created (never more than num); loop accounting of the apply/start spawner for every n and pool state (done means all); at quiescence a request that was never cancelled has finished normally with created+skipped = num (no invocation lost, over whole histories); the quiescence theorem also for every history with lock() / gather_and_close() after the request in which nobody calls unlock() (the property's own clause)",
-    "C05": "two-sided books of the per-call semaphore for every history (equality while the consumer lives, no lost wake-up) => never more than num_concurrent tasks of a call, and work conservation: a live consumer waiting on its own semaphore with no wake-up on its way means all num_concurrent slots are held by tasks of the call; request accounting for every history (in order, lazy, one element in hand at most); at every idle point a live consumer suspended on its own semaphore has all num_concurrent slots held (the premise 'no wake-up on its way' follows from the ready queue being empty); at quiescence a never-cancelled request has pulled its whole iterable (partial: the last element in hand); the quiescence theorem also with gather_and_close in the history (nobody calls unlock())",
+    "C04": "request accounting invariant for every history: created+skipped+remaining = num, the tasks of a request are exactly the ones it created (never more than num); loop accounting of the apply/start spawner for every n and pool state (done means all); at quiescence a request that was never cancelled has finished normally with created+skipped = num (no invocation lost, over whole histories); the quiescence theorem also for every history with lock() / gather_and_close() after the request in which nobody calls unlock() (the property's own clause); every task of an apply/start request was called with the request's own arguments (invariant over all histories)",
+    "C05": "two-sided books of the per-call semaphore for every history (equality while the consumer lives, no lost wake-up) => never more than num_concurrent tasks of a call, and work conservation: a live consumer waiting on its own semaphore with no wake-up on its way means all num_concurrent slots are held by tasks of the call; request accounting for every history (in order, lazy, one element in hand at most); at every idle point a live consumer suspended on its own semaphore has all num_concurrent slots held (the premise 'no wake-up on its way' follows from the ready queue being empty); at quiescence a never-cancelled request has pulled its whole iterable (partial: the last element in hand); the quiescence theorem also with gather_and_close in the history (nobody calls unlock()); every task of a map-style request was called with one element in its request's star variant, and element indices increase strictly with task ids within a request (no element twice, iteration order kept) - invariant over all histories",
     "C06": "decision logic stated outright: all-or-nothing with full state equality, classification, exact frame and delivery; a worker that catches its CancelledError and goes on is a running task like any other (next cancel accepted and delivered)",
     "C07": "what cancel_group/cancel_all do (frame, forgotten name), what a spawner does at its next step for each placement of the cancellation, and the invariant over all histories that a spawner cancelled while suspended or not yet begun has created no task and pulled no element since and is over or still doomed (nothing un-cancels it); cancel_group / cancel_all record that cancellation for every live spawner concerned, and after every continuation of the history the call's counters and task count are unchanged (step relation Mono: every step only moves forward)",
     "C08": "step-level theorems of the stages of gather_and_close (collecting gather waits for the last child, closing step, until_closed); closed stays closed after every continuation of the history (so every later request is rejected); for every history the count of every gather is exact (world-level invariant over the ready queue), so a gather completes only when all its child tasks have finished; the count is an equality (no callback slot is ever dropped), hence at quiescence every flush() / gather_and_close() call has returned and until_closed() waits only for a pool that is not closed; for every history in which nobody calls unlock(): while a gather_and_close waits the pool is locked, its first gather (collecting) has every spawner filed as running among its children and every other live spawner is doomed, every spawner child of a completed collecting gather has finished (world-level counting invariant), from the second gather on no task is created any more and that gather has every task filed as running or cancelled among its children at every moment of the wait, and when it completes every task of the pool has handed back its slot: the closing step drops nothing; when the closing step runs every task of the pool has finished, callbacks included (a task inside its end callback stays filed as ended and is among the children), and every request that was never cancelled is complete; at quiescence every flush / gather_and_close / until_closed call has returned; a pool is closed exactly when a gather_and_close has returned normally (every history)",
